@@ -18,6 +18,14 @@ recursion through `List Tmpl`), so closed instances reduce by `decide`.
              `<!-- "…" -->` (`comment`: rstml `Node::Comment`; `node_to_tokens` drops it, `is_inert_element` takes it
              for "not inert") and `<!DOCTYPE html>` (`doctype`; only as the first root node: tachys' `Doctype`
              leaves the position untouched, the model treats it like an inert string).
+             `unit`: a `{block}` whose value renders as the unit view — `{()}`, `{}`, a statement-only block,
+             `{None::<String>}`, `{Vec::<String>::new()}` (tachys prints `<!>` for each when strings are escaped;
+             the grammar keeps them out of raw-text elements, where `()` prints nothing and leaves the position alone).
+             `compA card attrs kids`: a component WITH attributes spread onto it — `<Wrap attr:name=… class:n=… style:n=…>`
+             (`card = false`) or `<Card …>` (`card = true`, `fn Card(children) = view!{<article role="group"
+             class="card"><Wrap>{children()}</Wrap></article>}`): `component_to_tokens` turns every `attr:` / `class:` /
+             `style:` attribute into `attribute_absolute(…)` and calls `.add_any_attr((…))` in SOURCE order (no
+             class-first sort), tachys appends them to the attributes of the component's outermost element.
   Values of dynamic positions are part of the template (the case supplies them).
   Not separate constructors, because the macro does not distinguish them: an element written `<tag …/>` is an
   element without children (rstml; `is_self_closing` is decided by the tag name alone), and a NON-string literal
@@ -98,6 +106,8 @@ inductive Tmpl where
   | comp (kids : List Tmpl)
   | comment (s : Str)
   | doctype
+  | unit
+  | compA (card : Bool) (attrs : List TAttr) (kids : List Tmpl)
   deriving Repr
 
 /-! ## Part 2 — the inert path -/
@@ -193,6 +203,8 @@ def inertNode : Tmpl → Bool
   | .comp _ => false
   | .comment _ => false
   | .doctype => false
+  | .unit => false
+  | .compA _ _ _ => false
 def inertKids : List Tmpl → Bool
   | [] => true
   | t :: ts => inertNode t && inertKids ts
@@ -252,6 +264,8 @@ def inertNodeHtml (escape : Bool) : Tmpl → Str
     '<' :: sWrap ++ '>' :: (inertKidsHtml (macroEscapes sWrap) kids ++ '<' :: '/' :: sWrap ++ ['>'])
   | .comment _ => []
   | .doctype => []
+  | .unit => []
+  | .compA _ _ _ => []
 def inertKidsHtml (escape : Bool) : List Tmpl → Str
   | [] => []
   | t :: ts => inertNodeHtml escape t ++ inertKidsHtml escape ts
@@ -286,6 +300,8 @@ def inertNodeHtmlOld (escape : Bool) : Tmpl → Str
     '<' :: sWrap ++ '>' :: (inertKidsHtmlOld (macroEscapesOld sWrap) kids ++ '<' :: '/' :: sWrap ++ ['>'])
   | .comment _ => []
   | .doctype => []
+  | .unit => []
+  | .compA _ _ _ => []
 def inertKidsHtmlOld (escape : Bool) : List Tmpl → Str
   | [] => []
   | t :: ts => inertNodeHtmlOld escape t ++ inertKidsHtmlOld escape ts
@@ -307,6 +323,8 @@ def inertNodeHtmlOld5 (escape : Bool) : Tmpl → Str
     '<' :: sWrap ++ '>' :: (inertKidsHtmlOld5 (macroEscapes sWrap) kids ++ '<' :: '/' :: sWrap ++ ['>'])
   | .comment _ => []
   | .doctype => []
+  | .unit => []
+  | .compA _ _ _ => []
 def inertKidsHtmlOld5 (escape : Bool) : List Tmpl → Str
   | [] => []
   | t :: ts => inertNodeHtmlOld5 escape t ++ inertKidsHtmlOld5 escape ts
@@ -338,8 +356,19 @@ def builderAttr : TAttr → Attr
 
 def builderAttrs (attrs : List TAttr) : List Attr := (sortAttrs attrs).map builderAttr
 
+def sArticle : Str := ['a','r','t','i','c','l','e']
+def sRole : Str := ['r','o','l','e']
+def sGroup : Str := ['g','r','o','u','p']
+def sCard : Str := ['c','a','r','d']
+
+/-- what a component with spread attributes renders: `<Wrap>` a `<section>` carrying them, `<Card>` an `<article
+role="group" class="card">` carrying them after its own, around the `<section>` -/
+def compNode (card : Bool) (spread : List Attr) (kids : List Node) : Node :=
+  if card then .elem sArticle ([.plain sRole sGroup, .cls sCard] ++ spread) [.elem sSection [] kids]
+  else .elem sSection spread kids
+
 mutual
-/-- the builder path alone (inert path off) -/
+/-- the builder path alone (inert path off; `unit` has no `Leptos.Html.Node`: left out) -/
 def builderView : Tmpl → List Node
   | .text s => [.text s]
   | .block s => [.text s]
@@ -349,6 +378,8 @@ def builderView : Tmpl → List Node
   | .comp kids => [.elem sSection [] (builderKids kids)]
   | .comment _ => []
   | .doctype => []
+  | .unit => []
+  | .compA card attrs kids => [compNode card (attrs.map builderAttr) (builderKids kids)]
 def builderKids : List Tmpl → List Node
   | [] => []
   | t :: ts => builderView t ++ builderKids ts
@@ -359,7 +390,12 @@ inductive Exp where
   | text (s : Str)
   | elem (tag : Str) (attrs : List Attr) (kids : List Exp)
   | inert (html : Str)
+  | unit
   deriving Repr
+
+def compExp (card : Bool) (spread : List Attr) (kids : List Exp) : Exp :=
+  if card then .elem sArticle ([.plain sRole sGroup, .cls sCard] ++ spread) [.elem sSection [] kids]
+  else .elem sSection spread kids
 
 mutual
 /-- `node_to_tokens` -/
@@ -373,6 +409,8 @@ def expand (top : Bool) : Tmpl → List Exp
   | .comp kids => [.elem sSection [] (expandKids true kids)]
   | .comment _ => []
   | .doctype => [.inert sDoctype]
+  | .unit => [.unit]
+  | .compA card attrs kids => [compExp card (attrs.map builderAttr) (expandKids true kids)]
 def expandKids (top : Bool) : List Tmpl → List Exp
   | [] => []
   | t :: ts => expand top t ++ expandKids top ts
@@ -382,10 +420,13 @@ def expPosAfter : Exp → Pos
   | .text _ => .afterText
   | _ => .nextChild
 
+def sMarker : Str := ['<','!','>']
+
 mutual
 def expHtml (escape : Bool) (pos : Pos) : Exp → Str
   | .text s => textHtml escape pos s
   | .inert h => h
+  | .unit => if escape then sMarker else []
   | .elem tag attrs kids =>
     '<' :: tag ++ attrsHtml attrs ++ '>' ::
       (if isVoid tag then []
@@ -408,6 +449,7 @@ order.  The templates of this grammar contain nothing asynchronous, so no chunk 
 def expHtmlAsync (ooo escape : Bool) (pos : Pos) : Exp → Str
   | .text s => textHtml escape pos s
   | .inert h => h
+  | .unit => if escape then sMarker else []
   | .elem tag attrs kids =>
     ('<' :: tag ++ attrsHtml attrs ++ ['>']) ++
       (if isVoid tag then []
@@ -432,6 +474,8 @@ def expandOld (top : Bool) : Tmpl → List Exp
   | .comp kids => [.elem sSection [] (expandKidsOld true kids)]
   | .comment _ => []
   | .doctype => [.inert sDoctype]
+  | .unit => [.unit]
+  | .compA card attrs kids => [compExp card (attrs.map builderAttr) (expandKidsOld true kids)]
 def expandKidsOld (top : Bool) : List Tmpl → List Exp
   | [] => []
   | t :: ts => expandOld top t ++ expandKidsOld top ts
@@ -531,6 +575,10 @@ def denAttrs (attrs : List TAttr) : List (Str × Str) :=
   plainDen attrs ++ optAttr sClass (normClass (trim (classSrc (sortAttrs attrs)))) ++
     optAttr sStyle (normStyle (styleSrc (sortAttrs attrs)))
 
+/-- attributes spread onto a component's root element: like `denAttrs`, but in source order (no class-first sort) -/
+def spreadDen (attrs : List TAttr) : List (Str × Str) :=
+  plainDen attrs ++ optAttr sClass (normClass (trim (classSrc attrs))) ++ optAttr sStyle (normStyle (styleSrc attrs))
+
 /-- a string child: in an element whose children are escaped the empty string stands for one space (leptos
 keeps a text node for it on both paths), elsewhere (`script style textarea noscript`) for nothing -/
 def textDen (esc : Bool) (s : Str) : Str := if esc && s = [] then [' '] else s
@@ -545,6 +593,12 @@ def denK (esc : Bool) : Tmpl → List Tree → List Tree
   | .comp kids, acc => .elem sSection [] (denKs true kids []) :: acc
   | .comment _, acc => acc
   | .doctype, acc => acc
+  | .unit, acc => acc
+  | .compA card attrs kids, acc =>
+    (if card then
+       .elem sArticle ((sRole, sGroup) :: spreadDen ([.cls false sCard] ++ attrs))
+         [.elem sSection [] (denKs true kids [])]
+     else .elem sSection (spreadDen attrs) (denKs true kids [])) :: acc
 def denKs (esc : Bool) : List Tmpl → List Tree → List Tree
   | [], acc => acc
   | t :: ts, acc => denK esc t (denKs esc ts acc)
@@ -571,6 +625,8 @@ def dynamize : Tmpl → Tmpl
   | .comp kids => .comp (dynKids kids)
   | .comment s => .comment s
   | .doctype => .doctype
+  | .unit => .unit
+  | .compA card attrs kids => .compA card (attrs.map dynAttr) (dynKids kids)
 def dynKids : List Tmpl → List Tmpl
   | [] => []
   | t :: ts => dynamize t :: dynKids ts
@@ -637,6 +693,9 @@ def seenNode (top escape : Bool) : Tmpl → List Seen
   | .comp kids => .belem sSection [] kids :: seenKids true true kids
   | .comment _ => []
   | .doctype => []
+  | .unit => []
+  | .compA card _ kids =>
+    (if card then [.belem sArticle [] [], .belem sSection [] kids] else [.belem sSection [] kids]) ++ seenKids true true kids
 def seenKids (top escape : Bool) : List Tmpl → List Seen
   | [] => []
   | t :: ts => seenNode top escape t ++ seenKids top escape ts
